@@ -19,6 +19,7 @@ Record inst := mkInst {
 
 Record sysflush := mkFlush {
   f_gid : nat;                    (* which aggregation group flushed (each has its own marker entry) *)
+  f_query : bool;                 (* true: no flush here, only a look at the marker / API at instant f_now *)
   f_now : Z; f_tzt : list (string * Z);
   f_silenced : bool;              (* every alert of the flush is covered by an active silence (silence stage, after the time stages) *)
   f_sink : bool;                  (* the route's receiver has at least one integration (false: a null receiver) *)
@@ -81,12 +82,16 @@ Definition sys_ctx (mute active : list string) (now : Z) : sctx :=
   mkCtx (Some "route") (Some "group") (Some mute) (Some active) (Some now).
 Definition upd (f : nat -> option (list string)) (g : nat) (v : option (list string)) : nat -> option (list string) :=
   fun k => if Nat.eqb k g then v else f k.
+Definition sys_step (m : intervals) (mute active : list string) (markers : nat -> option (list string))
+  (f : sysflush) : bool * option string * option (list string) :=
+  if f_query f then (false, None, markers (f_gid f))   (* nothing runs: the marker entry stays what it was *)
+  else time_stages (tz_table (f_tzt f)) m (sys_ctx mute active (f_now f)) (markers (f_gid f)).
 Fixpoint sys_model (m : intervals) (mute active : list string) (markers : nat -> option (list string))
   (fl : list sysflush) : list (bool * option string * (list string * bool)) :=
   match fl with
   | [] => []
   | f :: r =>
-      let '(p, e, mk) := time_stages (tz_table (f_tzt f)) m (sys_ctx mute active (f_now f)) (markers (f_gid f)) in
+      let '(p, e, mk) := sys_step m mute active markers f in
       (* a notification leaves iff the time stages pass and the silencer leaves an alert; the marker is written
          by the time stages at EVERY flush, silenced or not *)
       (p && negb (f_silenced f) && f_sink f, e, marker_muted mk) :: sys_model m mute active (upd markers (f_gid f) mk) r
@@ -99,7 +104,7 @@ Fixpoint sys_api_model (m : intervals) (mute active : list string) (markers : na
   match fl with
   | [] => []
   | f :: r =>
-      let '(_, _, mk) := time_stages (tz_table (f_tzt f)) m (sys_ctx mute active (f_now f)) (markers (f_gid f)) in
+      let '(_, _, mk) := sys_step m mute active markers f in
       let markers' := upd markers (f_gid f) mk in
       let view := map (fun '(g, _) => (g, fst (marker_muted (markers' g)))) (f_api f) in
       (view, map fst (List.filter (fun '(_, by_) => beq by_ []) view)) :: sys_api_model m mute active markers' r
@@ -252,6 +257,6 @@ Definition prop_case (c : case) : bool :=
   | CCfg d ru us _ =>
       negb (cfg_names_ok d ru us) || forallb (forallb (fun n => bool_decide (n ∈ d))) us
   | CSys m mute active fl =>
-      forallb (fun f => gating_ok m (f_tzt f) (sys_ctx mute active (f_now f)) None
+      forallb (fun f => f_query f || gating_ok m (f_tzt f) (sys_ctx mute active (f_now f)) None
                         && gating_ok m (f_tzt f) (sys_ctx mute active (f_now f)) (Some ["stale"])) fl
   end.
